@@ -14,7 +14,22 @@ type Case struct {
 	Src    string          `json:"src,omitempty"`  // source text, when the case has one
 	Args   []string        `json:"args,omitempty"` // small parameters
 	Data   json.RawMessage `json:"data,omitempty"` // structured payload (terms, types, histories…)
+	// Lazy, when set, produces Data on demand: every worker enumerates every case to find its
+	// share, and serialising the payload of the cases it skips dominated large enumerations.
+	Lazy func() json.RawMessage `json:"-"`
 }
+
+// Payload materialises a lazy payload (idempotent) and returns Data.
+func (c *Case) Payload() json.RawMessage {
+	if c.Data == nil && c.Lazy != nil {
+		c.Data = c.Lazy()
+		c.Lazy = nil
+	}
+	return c.Data
+}
+
+// HasPayload: does the case carry structured data (materialised or not)?
+func (c *Case) HasPayload() bool { return len(c.Data) > 0 || c.Lazy != nil }
 
 // Violation of the property found while running one case.
 type Violation struct {
